@@ -107,7 +107,16 @@ func runCheck(repo, verif, prop, tier string, t0 time.Time) (int, error) {
 			continue
 		}
 		for _, o := range fr.Obls {
-			if hasTag(o.Tags, prop) || len(o.Tags) == 0 {
+			// a clause tagged only with properties this function is not listed for (a callee's
+			// requires[Cxx] met in a function outside Cxx's list) would be checked by nobody:
+			// it counts for the function's own properties
+			orphan := len(o.Tags) > 0
+			for _, t := range o.Tags {
+				if hasTag(fr.Tags, t) {
+					orphan = false
+				}
+			}
+			if hasTag(o.Tags, prop) || len(o.Tags) == 0 || orphan {
 				obls = append(obls, o)
 				perFunc[fr.Name]++
 			}
